@@ -34,12 +34,22 @@ func (c *Ctx) constIndexGuarded(rule, pkgRel string, sliceOwner string, accept f
 			if fd.Body == nil || (accept != nil && !accept(fd)) {
 				return
 			}
+			defs := localDefs(info, fd.Body)
+			// subject: a local that is defined once stands for its definition (`cmd := st.command; cmd[0]`),
+			// so that a test on the one and an index into the other are recognised as the same slice
+			subjOf := func(e ast.Expr) string { return c.src(defs.resolve1(info, e)) }
+			// lenOf: e is len(<subject>) — directly or through a local defined once (`n := len(st.command)`)
+			lenOf := func(e ast.Expr, subj string) bool {
+				call, isLen := isBuiltinCall(info, defs.resolve1(info, e), "len")
+				return isLen && len(call.Args) == 1 && subjOf(call.Args[0]) == subj
+			}
 			walkStack(fd.Body, func(nd ast.Node, stack []ast.Node) bool {
 				ix, ok := nd.(*ast.IndexExpr)
 				if !ok {
 					return true
 				}
-				tv, ok := info.Types[ix.X]
+				ixX := defs.resolve1(info, ix.X)
+				tv, ok := info.Types[ixX]
 				if !ok {
 					return true
 				}
@@ -49,7 +59,7 @@ func (c *Ctx) constIndexGuarded(rule, pkgRel string, sliceOwner string, accept f
 				}
 				if !isStr {
 					_, isSlice := tv.Type.Underlying().(*types.Slice)
-					se, isField := unparen(ix.X).(*ast.SelectorExpr)
+					se, isField := unparen(ixX).(*ast.SelectorExpr)
 					if sliceOwner == "" || !isSlice || !isField {
 						return true
 					}
@@ -59,13 +69,13 @@ func (c *Ctx) constIndexGuarded(rule, pkgRel string, sliceOwner string, accept f
 						return true
 					}
 				}
-				subj := c.src(ix.X)
+				subj := subjOf(ix.X)
 				// need: the smallest length for which the index is valid
 				need := int64(-1)
 				if k, isC := constInt(info, ix.Index); isC {
 					need = k + 1
 				} else if be, isBE := unparen(ix.Index).(*ast.BinaryExpr); isBE && be.Op == token.SUB {
-					if call, isLen := isBuiltinCall(info, be.X, "len"); isLen && len(call.Args) == 1 && c.src(call.Args[0]) == subj {
+					if lenOf(be.X, subj) {
 						if k, isC := constInt(info, be.Y); isC && k >= 1 {
 							need = k
 						}
@@ -120,10 +130,52 @@ func (c *Ctx) constIndexGuarded(rule, pkgRel string, sliceOwner string, accept f
 						}
 					}
 				}
-				for _, ft := range factsOf(gs) {
+				// arm of `switch len(s) { case 0: … case 1: … }`: the length is one of the arm's values
+				// (default arm: none of the listed ones); void when the arm can be entered by fallthrough
+				for _, g := range gs {
+					if g.Tag == nil || len(g.Cases) == 0 || !lenOf(g.Tag, subj) {
+						continue
+					}
+					vals, allConst := map[int64]bool{}, true
+					for _, cs := range g.Cases {
+						if k, isC := constInt(info, cs); isC {
+							vals[k] = true
+						} else {
+							allConst = false
+						}
+					}
+					entered := false
+					for _, a := range stack {
+						sw, isSw := a.(*ast.SwitchStmt)
+						if !isSw || sw.Tag != g.Tag {
+							continue
+						}
+						for ci, cl := range sw.Body.List {
+							if ci == 0 || !(cl.Pos() <= nd.Pos() && nd.End() <= cl.End()) {
+								continue
+							}
+							prev := sw.Body.List[ci-1].(*ast.CaseClause)
+							if k := len(prev.Body); k > 0 {
+								if br, isBr := prev.Body[k-1].(*ast.BranchStmt); isBr && br.Tok == token.FALLTHROUGH {
+									entered = true
+								}
+							}
+						}
+					}
+					if !allConst || entered {
+						continue
+					}
+					for v := range possible {
+						if vals[v] == g.Neg {
+							delete(possible, v)
+						}
+					}
+				}
+				// (flagFacts, c02x.go: a boolean local defined once — `empty := len(s) == 0` — states its definition)
+				for _, ft := range flagFacts(info, fd.Body, defs, factsOf(gs), ix.Pos()) {
 					// len(s) OP k
 					if x, op, k, ok := cmpNorm(info, ft.E); ok {
-						if call, isLen := isBuiltinCall(info, x, "len"); isLen && len(call.Args) == 1 && c.src(call.Args[0]) == subj {
+						if lenOf(x, subj) {
 							p := intPred(op, k)
 							for v := range possible {
 								if p(v) != ft.True {
@@ -139,7 +191,7 @@ func (c *Ctx) constIndexGuarded(rule, pkgRel string, sliceOwner string, accept f
 						if s, isS := constString(info, l); isS && s == "" {
 							l, r = r, l
 						}
-						if s, isS := constString(info, r); isS && s == "" && c.src(l) == subj {
+						if s, isS := constString(info, r); isS && s == "" && subjOf(l) == subj {
 							empty := (be.Op == token.EQL) == ft.True
 							for v := range possible {
 								if (v == 0) != empty {
